@@ -8,8 +8,12 @@ import GqlVerif.Proofs.C01VariantSpreadD
 * `structD_lossless` — by mutual induction over the selection tree (`rtSelD` / `rtSelsD` / `rtInlD`);
 * **`variantspread_lossless` / `variantspread_roundtrip`**, for the whole class `VariantSpreadOp` (parts (a) and (b)):
   `Serde.roundtrip (moduleEnv c items) ResponseData j = .ok (normJson (canonSelD … j))`;
+* a lone spread of a fragment on the abstract type itself (`hero { ...CF }`): through the type alias (`rtAliasB`);
 * `canonSelD_noB`: without spreads of fragments on the abstract type itself `canonSelD = canonSelS` (part C's closed form,
-  a `to_value` normal form).
+  a `to_value` normal form);
+* `variantspread_b_rust_names_needed`, `variantspread_b_merge_loses_fields`, `variantspread_b_inline_merge_loses_fields`:
+  the side conditions are needed (the last two: a key with two readers — the fourth part of `absOkS` — loses data).
+What `normJson (canonSelD … j)` is relative to `j`: `variantspread_content` of `C01VariantSpreadH`.
 -/
 set_option linter.unusedSimpArgs false
 set_option linter.unusedVariables false
